@@ -109,6 +109,11 @@ func genC18(t *rapid.T) C18Case {
 		case 5, 6:
 			op := KOp{Kind: "batch", Fin: rapid.SampledFrom([]string{"write", "write", "writesync", "close"}).Draw(t, "fin")}
 			bn := rapid.IntRange(0, 6).Draw(t, "bn")
+			if rapid.IntRange(0, 14).Draw(t, "bulk") == 0 {
+				// a bulk batch (what a commit or an import hands to the store): hundreds to thousands of operations over the
+				// small key universe, so that most keys are written and deleted many times inside ONE batch
+				bn = rapid.SampledFrom([]int{70, 300, 600, 1500}).Draw(t, "bulkn")
+			}
 			for j := 0; j < bn; j++ {
 				if rapid.IntRange(0, 2).Draw(t, "bdel") == 0 {
 					k := genBKey(t, 0, "bk")
@@ -384,6 +389,9 @@ func runC18(c C18Case) (v *Violation, st map[string]bool) {
 					}
 				}
 				st["batch_written"] = true
+				if len(op.Batch) >= 64 {
+					st["bulk_batch_written"] = true
+				}
 			}
 		case "iter":
 			var start, end []byte
